@@ -5,6 +5,7 @@ generated with --endian little | big | both (default branch) | both (-DBP_BIG_EN
 Inputs per state: EXH/BASIS values, the exhaustive storage sweep (encode) and the exhaustive
 wire sweep (decode).  Oracle: opt == std == reference on every input.
 """
+import os
 import time
 from typing import List
 
@@ -211,10 +212,16 @@ def units(pid, tier):
     return [(pid, tier, idx[i:i + BATCH]) for i in range(0, len(idx), BATCH)]
 
 
+def dispatch(unit):
+    if unit[0] == "GO":
+        return run_go_unit(unit[1])
+    return run_unit(unit)
+
+
 def main(pid, tier):
     t0 = time.time()
     acc = Acc()
-    acc.merge(run_units(units(pid, tier), run_unit, maxtasks=10))
+    acc.merge(run_units(units(pid, tier) + [("GO", u) for u in go_units(pid, tier)], dispatch, maxtasks=10))
     c = acc.counters
     g = []
     for need in ("storage_swept", "wire_swept", "mode:EXH", "mode:BASIS"):
@@ -230,11 +237,13 @@ def main(pid, tier):
         exhaustive=True,
         bound="traditional subset of SING(%s) u COMB(2) u TREE(%d); full sweeps for structs/buffers <= %d bytes" % (
             tier, 4 if tier == "quick" else 5, sweep_limit(tier)),
-        go_part="see coverage.go (interpreted Go -O statements)" if False else "not covered by this run",
+        go_part=dict(states=c["go_states"], evaluations=c["go_evaluations"],
+                     note="Go -O Encode/Decode bodies interpreted by bpmc/gofront (typed evaluation) on EXH/BASIS values, a typed per-byte value sweep "
+                          "and a wire sweep; states with definitions in imported files are not interpreted (single-package evaluator)"),
     )
     return finish(pid, tier, acc, cov, t0,
                   assumptions=["reference model bpmc/ref.py", "the BE branch of -O output is endian-neutral C (value shifts), so running it on x86 is faithful",
-                               "Go -O statements are not executed here (no Go toolchain)"], guards=g)
+                               "Go -O statements are interpreted by bpmc/gofront (no Go toolchain): its reading of the Go specification is trusted"], guards=g)
 
 
 def replay(payload):
@@ -249,3 +258,155 @@ def replay(payload):
         return 1
     print("NOT REPRODUCED")
     return 0
+
+
+# ------------------------------------------------------------------ Go -O statements (interpreted)
+GO_BATCH = 16
+GO_BYTES_QUICK = (0x00, 0x01, 0x02, 0x04, 0x08, 0x10, 0x20, 0x40, 0x80, 0xFF, 0xFE, 0x7F, 0x55, 0xAA)
+
+
+def go_supported(c: scope.Case) -> bool:
+    return not (c.libp or c.liba)
+
+
+def go_field(struct_t, name):
+    for fname, ftype, tag, line in struct_t[1]:
+        if tag and ('json:"%s"' % name) in tag:
+            return fname
+    raise bind.InfraError("Go struct has no field tagged json:%s" % name)
+
+
+def go_walk(machine, obj, tname, path):
+    """Follow a reference-layout leaf path inside an evaluated Go object. Returns (container, key)."""
+    from .. import gofront
+    cur, cur_t = obj, ("name", tname)
+    steps = list(path)
+    for k, (kind, key) in enumerate(steps):
+        # resolve named types down to struct / array
+        while cur_t[0] == "name" and cur_t[1] in machine.types and machine.types[cur_t[1]][0] in ("struct", "array", "name"):
+            cur_t = machine.types[cur_t[1]]
+        if kind == "f":
+            fname = go_field(cur_t, key)
+            ft = [f[1] for f in cur_t[1] if f[0] == fname][0]
+            if k == len(steps) - 1:
+                return cur, fname
+            cur, cur_t = cur[fname], ft
+        else:
+            if k == len(steps) - 1:
+                return cur, key
+            cur, cur_t = cur[key], cur_t[2]
+    raise bind.InfraError("empty path")
+
+
+def run_go_unit(unit):
+    from .. import gofront
+    from ..pyback import parse_file, render_strings, quiet_stderr
+    pid, tier, idxs = unit
+    sp = [c for c in trad_space(tier) if go_supported(c)]
+    cases = [sp[i] for i in idxs]
+    out = UnitOut()
+    with Scratch() as sc:
+        d = sc.sub("go")
+        batch = scope.make_batch(cases)
+        from ..ir import write_files
+        write_files(batch, d)
+        try:
+            with quiet_stderr():
+                p = parse_file(os.path.join(d, batch.filename), traditional_mode=True)
+                from bitproto.renderer.impls import renderer_registry
+                text = renderer_registry["go"][0](p, outdir=d, optimization_mode=True).render_string()
+        except Exception as e:
+            out.violation(check="go-pipeline", symptom=type(e).__name__, site=repo_site(e), features=[], desc="go -O rendering failed for a traditional batch", detail=exc_summary(e))
+            return out.result()
+        try:
+            ast = gofront.parse(text)
+        except gofront.GoSyntaxError as e:
+            raise bind.InfraError("gofront cannot read generated Go: %s" % e)
+        m = gofront.Machine(ast)
+        V = gofront.V
+        for c in cases:
+            lay = ref.layout(c.msg)
+            leaves = [l for l in lay if l.is_value]
+            out.count("states")
+            out.count("go_states")
+            name = c.msg.name
+            enc_m, dec_m = m.methods.get((name, "Encode")), m.methods.get((name, "Decode"))
+            if enc_m is None or dec_m is None:
+                _viol(out, pid, "go", "missing_method", "generated go -O", c, lay, "no Encode/Decode method for %s" % name, config="go -O")
+                continue
+            mode, vecs = values.value_space(leaves, min(pycodec.vmax(tier), 6))
+            # typed "storage" sweep: every byte of every integer leaf's Go value
+            probe = m.zero(("name", name))
+            slots = [go_walk(m, probe, name, l.path) for l in leaves]
+            types = [cont[key].t for cont, key in slots]
+            inputs = [list(v) for v in vecs]
+            bytevals = range(256) if (tier != "quick" or len(leaves) <= 1) else GO_BYTES_QUICK
+            for bg in (0, -1):
+                base = [(bg if l.kind != "bool" else (bg & 1)) for l in leaves]
+                for li, l in enumerate(leaves):
+                    if l.kind == "bool":
+                        continue
+                    info = m.int_info(types[li])
+                    if info is None:
+                        raise bind.InfraError("leaf %s has Go type %s" % (l.path, types[li]))
+                    for pbyte in range(info[0] // 8):
+                        for b in bytevals:
+                            v = list(base)
+                            raw = (bg & ~(0xFF << (8 * pbyte))) | (b << (8 * pbyte))
+                            v[li] = raw
+                            inputs.append(v)
+            try:
+                for vec in inputs:
+                    obj = m.zero(("name", name))
+                    for l, t, x in zip(leaves, types, vec):
+                        cont, key = go_walk(m, obj, name, l.path)
+                        cont[key] = V(t, bool(x & 1)) if l.kind == "bool" else m.wrap(t, x)
+                    enc = m.call(enc_m, obj, [])
+                    got = bytes(b.v for b in enc)
+                    exp = ref.encode(c.msg, vec, lay)
+                    out.count("evaluations")
+                    out.count("traces")
+                    out.count("transitions")
+                    out.count("go_evaluations")
+                    if any(vec):
+                        out.count("nontrivial")
+                    if got != exp:
+                        _viol(out, pid, "go-encode", "opt_differs", "generated go -O Encode", c, lay,
+                              "values=%s go bytes=%s reference=%s" % (vec, got.hex(), exp.hex()), config="go -O")
+                        break
+                wires = [ref.encode(c.msg, v, lay) for v in vecs]
+                nb = ref.nbytes(c.msg)
+                for bg in (0x00, 0xFF):
+                    for pbyte in range(nb):
+                        for b in (bytevals if nb <= 6 else GO_BYTES_QUICK):
+                            w = bytearray([bg]) * nb
+                            w[pbyte] = b
+                            wires.append(bytes(w))
+                for w in wires:
+                    obj = m.zero(("name", name))
+                    m.call(dec_m, obj, [[V("byte", x) for x in w]])
+                    got = []
+                    for l in leaves:
+                        cont, key = go_walk(m, obj, name, l.path)
+                        got.append(int(cont[key].v))
+                    exp = ref.decode_same(c.msg, w, lay)
+                    out.count("evaluations")
+                    out.count("traces")
+                    out.count("transitions")
+                    out.count("go_evaluations")
+                    if got != exp:
+                        _viol(out, pid, "go-decode", "opt_differs", "generated go -O Decode", c, lay,
+                              "wire=%s go values=%s reference=%s" % (w.hex(), got, exp), config="go -O")
+                        break
+            except gofront.GoEvalError as e:
+                _viol(out, pid, "go", "statement_not_valid_go:" + str(e)[:60], "generated go -O", c, lay, "evaluating the generated statements: %s" % e, config="go -O")
+        out.sample(dict(kind="go -O", states=len(cases), example=cases[0].desc))
+    return out.result()
+
+
+def go_units(pid, tier):
+    sp = [c for c in trad_space(tier) if go_supported(c)]
+    idx = list(range(len(sp)))
+    if tier == "quick":
+        idx = idx[::3]
+    return [(pid, tier, idx[i:i + GO_BATCH]) for i in range(0, len(idx), GO_BATCH)]
